@@ -105,6 +105,8 @@ class HalfLine(GeoBody):
         """Return the HalfLine that you get when you move self by vector v, self is also moved"""
         if isinstance(v, Vector):
             self.point.move(v)
+            # the cached carrier line has to follow the origin
+            self.line.move(v)
             return HalfLine(self.point, self.vector)
         else:
             raise NotImplementedError(
